@@ -400,12 +400,17 @@ func renameConflictColumns(b *block, conflictColumns map[string]map[string]struc
 
 func collectConflictColumns(parts []*partWrapper) map[string]map[string]struct{} {
 	familyColumnTypes := make(map[string]map[string]map[pbv1.ValueType]struct{})
+	// A column that an earlier merge already stored under its typed name must stay typed: if a plain
+	// column of the same (single) type were merged next to it, readers would find the typed column
+	// first and never look at the plain one.
+	typedAndPlain := make(map[string]map[string][2]bool)
 	for _, pw := range parts {
 		for cf, cc := range pw.p.tagType {
 			columnTypes := familyColumnTypes[cf]
 			if columnTypes == nil {
 				columnTypes = make(map[string]map[pbv1.ValueType]struct{})
 				familyColumnTypes[cf] = columnTypes
+				typedAndPlain[cf] = make(map[string][2]bool)
 			}
 			for name, vt := range cc {
 				decoded := decodeTypedColumn(name)
@@ -415,13 +420,20 @@ func collectConflictColumns(parts []*partWrapper) map[string]map[string]struct{}
 					columnTypes[decoded] = valueTypes
 				}
 				valueTypes[vt] = struct{}{}
+				seen := typedAndPlain[cf][decoded]
+				if decoded != name {
+					seen[0] = true
+				} else {
+					seen[1] = true
+				}
+				typedAndPlain[cf][decoded] = seen
 			}
 		}
 	}
 	var conflictColumns map[string]map[string]struct{}
 	for cf, columnTypes := range familyColumnTypes {
 		for name, valueTypes := range columnTypes {
-			if len(valueTypes) <= 1 {
+			if seen := typedAndPlain[cf][name]; len(valueTypes) <= 1 && !(seen[0] && seen[1]) {
 				continue
 			}
 			if conflictColumns == nil {
